@@ -44,6 +44,7 @@ type Engine struct {
 	fset        *token.FileSet
 	fns         map[string]*ssa.Function
 	names       *nameTables
+	baseExt     map[string]bool
 	sweepOnly   bool
 	inGlobal    bool
 	allocIdx    map[*ssa.Alloc]int
